@@ -1,8 +1,10 @@
 (* C10/Run.v -- entry point of the correspondence check: a case is a history
    (enum field type definitions + operations); the observation is the list of
-   texts every operation produced. *)
+   texts every operation produced.  The chunk program of an object is either the
+   one the harness took from the implementation by a probe rendering, or, for
+   pretty-printer values, [pp_obj fj v] computed by the layout model (Layout.v). *)
 From Coq Require Import ZArith List.
-From AK Require Export Common.Sx Common.Err C10.Sgr C10.Base gen.C10_Consts C10.Model.
+From AK Require Export Common.Sx Common.Err C10.Sgr C10.Base gen.C10_Consts C10.Model C10.Layout.
 Import ListNotations.
 
 (* texts are compared by (length, polynomial hash modulo 2^61): a history prints
